@@ -838,6 +838,9 @@ def _overlay_known(chk: Check):
     check is self-contained before the next assembly"""
     p = VERIF / "known.d" / f"{PROP}.json"
     if p.exists():
+        listed = {f["key"] for f in json.loads(p.read_text()).get("findings", []) if f.get("property") == PROP}
+        for kind in ("known", "fixed"):   # known.d is the source of truth; drop stale entries of an older assembly
+            chk.known[kind] = {k: v for k, v in chk.known[kind].items() if k in listed}
         for f in json.loads(p.read_text()).get("findings", []):
             if f.get("property") == PROP and f.get("status") == "known":
                 chk.known["known"].setdefault(f["key"], f)
